@@ -570,7 +570,8 @@ def extract_loopfn(repo, ent):
         if incr.strip():
             g.append(ln(incr) + '      ' + incr.strip() + ';\n')
         g.append('        __CPROVER_assert(%s_INV, "loop invariant is preserved (inductive step)");\n' % P)
-        g.append('        __CPROVER_assert((%s_DECR) < lc_decr_before, "loop variant decreases");\n' % P)
+        if not ent.get('no_decreases'):
+            g.append('        __CPROVER_assert((%s_DECR) < lc_decr_before, "loop variant decreases");\n' % P)
         g.append('        __CPROVER_assert(%s_FRAME_UNCHANGED, "loop frame: nothing outside the loop assigns clause changed");\n' % P)
         g.append('        __CPROVER_assume(0);\n      }\n')
     g.append('    lc_break%s: ;\n    %s;\n  }\n' % (sfx, '((void) lc_broke)' if K else P + '_AT_EXIT'))
